@@ -26,6 +26,7 @@ Init == /\ \/ /\ bm = FALSE
               /\ sh \in Recipes(LeavesB, {<<"byte", a>>, Str(<<a, b>>), Ref("R1")})
               /\ (Tier = "quick" => sh[1] <= 2)
         /\ c \in CtxIds(sh)
+        /\ (c % NShards) = Shard           \* the thorough tier enumerates the family context by context (memory of the replay)
         /\ Renderable(e)
         /\ done = FALSE
 
